@@ -265,26 +265,27 @@ whitespace, first token, "every whitespace run between two neighbouring tokens/c
 acceptable separator for the second one" (`sepOk`: `""`, `" "`, or one line break / one blank line
 followed by an indentation run; nothing at all in front of `;`), trailing whitespace. -/
 
-/-- SPACING NORMAL FORM. For every well-formed file of the fragment without parentheses and function
-    calls (`File.basic`: the container part of the fragment — the spacing proof has not been extended
-    to `( e )` / `f x` yet; no counterexample is known there, the decidable conclusion is evaluated on
-    every sample of every run) in which no one-line container
-    holds a comment in front of an item (`Src.beforeFlatB`: the items of a container without a line
-    break have empty leading trivia; see `cex_block_comment_after_opener`), the rebuilt file has
+/-- SPACING NORMAL FORM. For every well-formed file of the fragment (containers, parentheses, function
+    calls, any nesting) in which no one-line container holds a comment in front of an item, no comment
+    stands between `(` and a value on the same line, and no comment touches the function of a call whose
+    argument is on the same line (`Src.beforeFlatB`: the items of a container without a line break, the
+    value of a parenthesis whose leading gap has no line break and the argument of a call whose gap
+    has no line break have empty leading trivia; see `cex_block_comment_after_opener`,
+    `cex_comment_after_open_paren`, `cex_comment_touching_function`), the rebuilt file has
     no whitespace before its first token, every separator is in the formatter's normal form, `;`
     is attached, and the file ends with at most one blank line. -/
 theorem frag_spacing_nf (f : File) (s : Src) (hwf : f.wf = true) (_hws : f.noLeadingWs = true)
-    (hbasic : f.basic = true) (hp : f.parse = .ok s) (hclean : s.beforeFlatB = true) :
+    (hp : f.parse = .ok s) (hclean : s.beforeFlatB = true) :
     (summ s.rebuildP).fileOk = true :=
-  file_nf_flat f s hwf hbasic hp hclean
+  file_nf_flat f s hwf hp hclean
 
 /-- the same with the exclusion as the render-side induction uses it (`inlineCleanB` additionally
     asks that every item's trailing trivia in a one-line container ends with a comment, which
     `Lemmas/FragFlat.lean` proves for everything `fromCst` builds) -/
 theorem frag_spacing_nf_clean (f : File) (s : Src) (hwf : f.wf = true) (_hws : f.noLeadingWs = true)
-    (hbasic : f.basic = true) (hp : f.parse = .ok s) (hclean : s.inlineCleanB = true) :
+    (hp : f.parse = .ok s) (hclean : s.inlineCleanB = true) :
     (summ s.rebuildP).fileOk = true :=
-  file_nf f s hwf hbasic hp (src_inlineClean hclean)
+  file_nf f s hwf hp (src_inlineClean hclean)
 
 /-- what `fileOk` says, in terms of the pieces: for any two neighbouring tokens/comments `p`, `q`
     of the output with only whitespace pieces `W` between them, `concat W` is a `NormalSep`, and it
@@ -356,8 +357,8 @@ def frag_spacing_nf_grown_full : Prop :=
     column 0 (open finding `C18-spacing-space-run-parenthesized_expression`, the parenthesis analogue
     of `cex_block_comment_after_opener`; `expressions/parenthesis.py: rebuild` renders
     `value.rebuild(indent, inline=True)` and `add_trivia` writes `format_trivia(before, indent)`).
-    An extension of `frag_spacing_nf` to parentheses needs the exclusion "the value of a parenthesis
-    whose leading gap has no line break has no leading trivia". -/
+    Hence the clause of `beforeFlatB` for parentheses: "the value of a parenthesis whose leading gap
+    has no line break has no leading trivia". -/
 def parenCommentFile : File :=
   { items := .elem [] (.list (.elem "\n  ".toList (.paren (.cmt " ".toList "/* c */".toList
       (.elem " ".toList (.leaf .ident "x".toList) .nil)) []) .nil) "\n".toList) .nil,
@@ -370,7 +371,48 @@ theorem cex_comment_after_open_paren : ¬ frag_spacing_nf_grown_full := by
 
 example : parenCommentFile.flatten = "[\n  ( /* c */ x)\n]".toList := by decide
 example : parenCommentFile.roundtrip = .ok "[\n  (  /* c */\nx)\n]".toList := by decide
-example : parenCommentFile.basic = false := by decide
+example : (match parenCommentFile.parse with | .ok s => s.beforeFlatB | _ => true) = false := by decide
+
+/-- the spacing statement under `beforeFlatB` without its clause for calls (`beforeFlatP`) — false -/
+def frag_spacing_nf_nocall_full : Prop :=
+  ∀ (f : File) (s : Src), f.wf = true → f.noLeadingWs = true → f.parse = .ok s → s.beforeFlatP = true →
+    (summ s.rebuildP).fileOk = true
+
+/-- `{⏎  a = f/* c */ x;⏎}`: a comment that touches the function is not an end-of-line comment of the
+    function (`start_byte > function_node.end_byte` fails) and becomes leading trivia of the argument;
+    the argument stays on the function's line and is rendered `inline` after the own-line rendering of
+    the comment at the call's indentation: `a = f   /* c */⏎x;` — an indentation run after the
+    separating space, the argument at column 0 (`expressions/function/call.py: from_cst` /
+    `rebuild`). Hence the clause of `beforeFlatB` for calls: "the argument of a call whose gap has no
+    line break has no leading trivia". -/
+def callCommentFile : File :=
+  { items := .elem [] (.set false [] (.bind "\n  ".toList "a".toList [] " ".toList [] " ".toList
+      (.app (.leaf .ident "f".toList) [([], "/* c */".toList)] " ".toList (.leaf .ident "x".toList)) [] [] .nil)
+      "\n".toList) .nil,
+    endGap := [] }
+
+theorem cex_comment_touching_function : ¬ frag_spacing_nf_nocall_full := by
+  intro h
+  have := h callCommentFile _ (by decide) (by decide) rfl (by decide)
+  revert this; decide
+
+example : callCommentFile.flatten = "{\n  a = f/* c */ x;\n}".toList := by decide
+example : callCommentFile.roundtrip = .ok "{\n  a = f   /* c */\nx;\n}".toList := by decide
+example : (match callCommentFile.parse with | .ok s => s.beforeFlatB | _ => true) = false := by decide
+
+/-- parentheses and calls in many layouts, with comments, satisfying the hypotheses -/
+def grownSample : File :=
+  { items := .elem [] (.set false [] (.bind "\n  ".toList "a".toList [] " ".toList [] " ".toList
+      (.app (.app (.leaf .ident "f".toList) [(" ".toList, "/* c */".toList)] " ".toList
+          (.paren (.elem "\n\n      ".toList (.leaf .ident "x".toList) (.cmt " ".toList "# e".toList .nil)) "\n   ".toList))
+        [("\n".toList, "# d".toList)] "\n\n\t".toList (.paren (.elem [] (.list .nil []) .nil) " ".toList)) [] [] .nil)
+      "\n".toList) .nil,
+    endGap := [] }
+
+example : grownSample.flatten = "{\n  a = f /* c */ (\n\n      x # e\n   )\n# d\n\n\t([] );\n}".toList := by decide
+example : grownSample.roundtrip = .ok "{\n  a = f /* c */ (\n\n      x # e\n  )\n\n # d\n\n ([ ]);\n}".toList := by decide
+example : grownSample.wf = true ∧ grownSample.noLeadingWs = true := by decide
+example : (match grownSample.parse with | .ok s => s.beforeFlatB | _ => false) = true := by decide
 
 /-- a file with comments in many gaps that satisfies the hypotheses -/
 def fragSample : File :=
@@ -381,7 +423,7 @@ def fragSample : File :=
     endGap := "\n\n\n".toList }
 
 example : fragSample.flatten = "# h\n\n\n{\n\ta /* n */  =\n\n      [ 1\t] ; # e\n\n\n# o\n\n\n}\n\n\n".toList := by decide
-example : fragSample.wf = true ∧ fragSample.noLeadingWs = true ∧ fragSample.basic = true := by decide
+example : fragSample.wf = true ∧ fragSample.noLeadingWs = true := by decide
 example : (match fragSample.parse with | .ok s => s.beforeFlatB | _ => false) = true := by decide
 example : fragSample.roundtrip = .ok "# h\n\n{\n  a =\n      /* n */\n\n      [ 1 ]; # e\n\n  # o\n\n}\n\n".toList := by decide
 
